@@ -77,21 +77,13 @@ def probe(hbin):
     return vals
 
 
-def model_flags(vals, extras):
+def model_flags(vals, extras, tag_state=False):
     def allof(keys):
         return all(vals.get(k, 0) == 1 for k in keys)
     fl = [allof(CLASSES["C09-invalid-escape"]["probe"]), allof(CLASSES["C09-peek-index"]["probe"]),
-          allof(CLASSES["C09-nested-leading-choice"]["probe"]), allof(CLASSES["C09-unroller-overflow"]["probe"]), extras]
+          allof(CLASSES["C09-nested-leading-choice"]["probe"]), allof(CLASSES["C09-unroller-overflow"]["probe"]), extras,
+          vals.get("fix_lr", 0) == 1, (vals.get("fix_tag", 0) == 1) if extras else tag_state]
     return "".join("1" if x else "0" for x in fl)
-
-
-def lr_state(hbin):
-    """is the left-recursion check of this tree the shipped one (the model's)?  witness of C06: accepted as shipped"""
-    rc, out = sh("%s one %s" % (hbin, shlex.quote('a = { a? ~ "x" }')), timeout=60)
-    for line in out.split("\n"):
-        if line.startswith("one|"):
-            return line.split("\t")[1] == "rules"
-    return True
 
 
 def plan(tier, seed, repo):
@@ -186,10 +178,9 @@ def run(tier, seed, replay=None):
     hbin = os.path.join(bdir, "c09")
     vals = probe(hbin)
     flags = model_flags(vals, False)
-    lr_shipped = lr_state(hbin)
-    rflags = flags + ("" if lr_shipped else " lrskip")
-    log("C09: implementation state (probe): %s -> model flags escape/peek/choice/unroll/extras = %s%s" % (
-        " ".join("%s=%d" % kv for kv in sorted(vals.items())), flags, "" if lr_shipped else " (left-recursion check differs from the shipped one: not compared)"))
+    rflags = flags
+    log("C09: implementation state (probe): %s -> model flags escape/peek/choice/unroll/extras/lr/tag = %s" % (
+        " ".join("%s=%d" % kv for kv in sorted(vals.items())), flags))
 
     if replay:
         rj = json.load(open(replay))
@@ -223,7 +214,7 @@ def run(tier, seed, replay=None):
     xstats = {}
     if xrc == 0:
         xbin = os.path.join(xdir, "c09")
-        xflags = model_flags(probe(xbin), True) + ("" if lr_shipped else " lrskip")
+        xflags = model_flags(probe(xbin), True)
         xm, xstats, _ = run_cases(xbin, runner, xflags, ["fixed"] + ["rnd %d %d" % (seed * 100 + 50 + i, 3000 if tier == "quick" else 40000) for i in range(2)])
         for x in xm:
             x["case"] = "[grammar-extras] " + x["case"]
@@ -244,6 +235,10 @@ def run(tier, seed, replay=None):
             by_class.setdefault(cls, []).append(m)
         else:
             other_spec.append(m)
+    # a class whose witness still panics (probe) is reported even when no generated case happened to hit it
+    for cls, d in CLASSES.items():
+        if cls not in by_class and any(vals.get(k, 1) == 0 for k in d["probe"]):
+            by_class[cls] = [{"kind": "spec", "case": "probe|" + d["witness"].replace("\\", "\\\\"), "impl": "parse_and_optimize panicked on the class witness (probe)", "expected": ""}]
     for cls, ms in sorted(by_class.items()):
         d = CLASSES[cls]
         worst = min(ms, key=lambda m: len(m["case"]))
@@ -314,7 +309,6 @@ def run(tier, seed, replay=None):
         "mismatches": len(mism),
         "implementation_state": vals,
         "model_flags": flags,
-        "left_recursion_compared": lr_shipped,
         "classes": {k: v for k, v in stats.items() if str(k).startswith("class_")},
         "kinds": {k: v for k, v in stats.items() if str(k).startswith("kind_")},
         "extras_classes": {k: v for k, v in xstats.items() if str(k).startswith("class_")},
